@@ -34,3 +34,14 @@ Theorem C03_purged_stopper_refuted :
   YV.Proofs.GCWitness.p4_with_purge = Some [100; 250; 150; 300]%Z.
 Proof. exact YV.Proofs.GCWitness.purged_stopper_changes_order. Qed.
 Print Assumptions C03_purged_stopper_refuted.
+
+(* finding P42 (repaired by e73842df): the position a losing move leaves behind may be purged only
+   when everybody has seen the WINNING move; its author may still anchor operations on it *)
+Theorem C03_losing_move_position_carries_winner :
+  YV.Proofs.GCWitness.removed_of YV.Proofs.GCWitness.mv_WL YV.Proofs.GCWitness.mv_L = Some (Some YV.Proofs.GCWitness.mv_W) /\
+  YV.Proofs.GCWitness.removed_of YV.Proofs.GCWitness.mv_LW YV.Proofs.GCWitness.mv_L = Some (Some YV.Proofs.GCWitness.mv_W) /\
+  option_map RGAList.visible (YV.Proofs.GCWitness.obind YV.Proofs.GCWitness.mv_WL YV.Proofs.GCWitness.mv_next) = Some [20; 10; 30]%Z /\
+  option_map RGAList.visible (YV.Proofs.GCWitness.obind YV.Proofs.GCWitness.mv_LW YV.Proofs.GCWitness.mv_next) = Some [20; 10; 30]%Z /\
+  YV.Proofs.GCWitness.obind YV.Proofs.GCWitness.mv_WL (fun g => YV.Proofs.GCWitness.mv_next (purge_slot g YV.Proofs.GCWitness.mv_L)) = None.
+Proof. exact YV.Proofs.GCWitness.losing_move_position_carries_winner. Qed.
+Print Assumptions C03_losing_move_position_carries_winner.
